@@ -33,7 +33,7 @@ PAYLOADS = ['&', '<', '>', "'", '"', '&amp;', ']]>', ' a', 'a  b', 'a&b<c>', '&#
 DELIMS = [('~', '*', ':'), ('!', '|', '>'), ('$', '|', '+')]
 OUT_DELIMS = '~*:^'
 KEEP = ('ISA', 'GS', 'ST', 'SE', 'GE', 'IEA', 'HL', 'LX', 'BHT')     # segments whose values steer the envelope / map choice
-QUICK_KINDS = ('min', 'min-maxlen', 'lastcode', 'all', 'all-filled', 'all-swapped', 'all-filled-swapped', 'two-sets', 'two-groups', 'two-interchanges',
+QUICK_KINDS = ('min', 'min-maxlen', 'lastcode', 'all', 'all-filled', 'all-swapped', 'all-filled-swapped', 'two-sets', 'two-groups', 'two-interchanges', 'all-twice', 'all-filled-two-groups',
                'include:', 'repeat2:', 'repeatmax:', 'ta1-', 'signed')
 
 
@@ -76,6 +76,10 @@ def plan_names(entry, family, thorough):
         for name, plan in (list(gen.plans_d1(entry)) + list(gen.plans_swapped(entry))):
             if thorough or name.startswith(QUICK_KINDS):
                 yield name
+                if entry[3] is not None and 'groups' not in plan and 'interchanges' not in plan:
+                    # the map of this document is chosen inside the set (278: by BHT02): the same document in two groups,
+                    # so that the choice is made again after the group header has reset it
+                    yield name + '@2g'
     elif family == 'pair':
         devs = loop_devs(entry)
         for (a, pa), (b, pb) in itertools.combinations(devs, 2):
@@ -101,6 +105,8 @@ MIXED = ('834.4010.X095.A1.xml', '834.5010.X220.A1.xml', '835.5010.X221.A1.xml',
 
 def plan_by_name(entry, name):
     d = dict((n, p) for n, p in (list(gen.plans_d1(entry)) + list(gen.plans_swapped(entry))))
+    if name.endswith('@2g'):
+        return dict(plan_by_name(entry, name[:-3]), groups=2)
     if '+' in name:
         a, b = name.split('+')
         return merge(d[a], d[b])
@@ -515,9 +521,17 @@ def judge(case):
     if len(o.nodes) != len(doc.segs) or any(n is None for n in o.nodes):
         return [], 'a segment was not located by the matcher (C02 domain)', [], 0
     if [n.split('[')[0] for n in o.nodes] != [n.path for n in doc.nodes]:
-        return [], 'matcher chose other nodes than the grammar (C02 domain)', [], 0
+        # the rendering oracle is written against the grammar's nodes and cannot judge this XML (which node a segment
+        # matches is C02's matter); the round trip is still owed: every segment of this document has a node in its map.
+        # (Until round 10 the whole document was skipped here; the situation does not occur on the unchanged tree.)
+        other_nodes = True
+    else:
+        other_nodes = False
     labels = set(transition(a, b) for a, b in zip(doc.nodes, doc.nodes[1:]))
-    rebuilt = check_xml(doc, o.xml, V, sub_t)
+    if other_nodes:
+        labels = set(['matcher chose other nodes than the grammar: round trip only'])
+    else:
+        check_xml(doc, o.xml, V, sub_t)
     out = io.StringIO()
     try:
         pyx12.xmlx12_simple.convert(io.StringIO(o.xml), out)
@@ -609,7 +623,7 @@ def run(R):
         'trailing': 'one all-filled document per map written with all trailing empty elements and components of the definitions x %d delimiter sets' % len(DELIMS),
     }
     R.assumptions = [
-        'structural validity is decided by the independent grammar: gen.selfcheck passes and the matcher (callback) reports exactly the generating nodes; other documents are skipped and counted (C02/C07 domain)',
+        'structural validity is decided by the independent grammar (gen.selfcheck passes); documents on which validation raises or a segment is not located at all are skipped and counted (C07 / C02 domain); where the matcher reports other nodes than the generating ones the rendering oracle is not applied but the round trip is',
         'data never contain the output delimiters ~ * : ^ nor a delimiter of the source; payloads containing one are skipped for that delimiter set (counted)',
         'instances of transparent wrapper loops (first child is a loop) are not counted: the statement gives them no instances; their presence in the ancestor chain is demanded',
         'values of ISA, GS, ST, SE, GE, IEA, HL, LX, BHT are never replaced by payloads',
